@@ -52,7 +52,7 @@ type AtomPlan struct {
 	Cuts    int     `json:"cuts"`    // number of extra gas cut points enumerated from the dry run (mode 1)
 	Depth   int     `json:"depth"`   // nesting depth of the failing callee (mode 2)
 	Signer  int     `json:"signer"`
-	ForkAt  int     `json:"forkat"` // the experiment runs after this many history blocks
+	ForkAt  int     `json:"forkat"`          // the experiment runs after this many history blocks
 	Extra   []Op    `json:"extra,omitempty"` // ordinary transactions sharing the block with X / Y
 }
 
